@@ -266,7 +266,7 @@ pub fn process(
         Operation::Rjmp | Operation::Rcall => {
             let k = op_args[0].get_expr()?;
             let k = k.run(constants)?;
-            let rel = k - (current_address as i64 + 1);
+            let rel = k.saturating_sub(current_address as i64 + 1);
             if rel < -2048 || rel > 2047 {
                 bail!("Relative address out of range (-2048 <= k <= 2047)");
             }
@@ -300,7 +300,7 @@ pub fn process(
 
             let k = op_args[index].get_expr()?;
             let k = k.run(constants)?;
-            let rel = k - (current_address as i64 + 1);
+            let rel = k.saturating_sub(current_address as i64 + 1);
             if rel < -64 || rel > 63 {
                 bail!("Relative address out of range (-64 <= k <= 63)");
             }
